@@ -300,6 +300,21 @@ Definition create_raw (st : wstate) (r : mreq) : outcome (otx * wstate) :=
   | Ok (t, ids) => Ok (t, mkW (w_utxos st) (w_addrs st) (w_reserved st ++ ids) (w_pool st))
   end.
 
+(* consecutive calls of either kind on one wallet (no block in between, cache not yet expired) *)
+Inductive creq := RAuto (r : areq) | RManual (r : mreq).
+Definition create (st : wstate) (c : creq) : outcome (otx * wstate) :=
+  match c with RAuto r => auto_create st r | RManual r => create_raw st r end.
+Fixpoint run (st : wstate) (rs : list creq) : list (outcome otx) :=
+  match rs with
+  | [] => []
+  | c :: rest =>
+    match create st c with
+    | Ok (t, st') => Ok t :: run st' rest
+    | Err e => Err e :: run st rest
+    | Panic => Panic :: run st rest
+    end
+  end.
+
 (* ------------------------------------------------------------------ the property's predicates *)
 
 Fixpoint find_utxo (id : Z) (l : list utxo) : option utxo :=
